@@ -234,6 +234,12 @@ class CallMixin:
         for p, t in c.params.items():
             if p in env:
                 env[p] = self.adapt_arg(env[p], t, st)
+        for fv_ in c.extra.get('free', {}):
+            # nested function: its free variables are the caller-visible bindings of the enclosing function
+            v = st.lookup(fv_)
+            if v is None:
+                raise ContractError("%s: free variable %s is not bound at the call (line %s)" % (qual, fv_, node.lineno))
+            env[fv_] = v
         caller = st.fid
         callee_fid = st.new_frame(env, parent=None)
         st.fid = callee_fid
@@ -254,7 +260,7 @@ class CallMixin:
             st.fid = callee_fid
         saved_old = st.snaps.get('old')
         out = []
-        forks = [(None, c.ensures)] + [(e, posts) for e, posts in c.raises.items()]
+        forks = [(None, c.ensures + list(c.extra.get('assumed_ensures', [])))] + [(e, posts) for e, posts in c.raises.items()]
         for exc, posts in forks:
             s = st if exc is None and not c.raises else st.copy()
             s.fid = callee_fid
@@ -526,9 +532,42 @@ class CallMixin:
         if 'key' not in kws:
             rev = 'reverse' in kws
             self.assume_sorted(R, st, rev)
-        else:
+        elif not self.assume_sorted_by_key(R, kws, st, node):
             self.note('rule', (node.lineno, ast.unparse(node)[:60], 'sorted(key=...): a permutation; order by key not modelled'))
         return k(st, st.alloc(R))
+
+    def assume_sorted_by_key(self, R, kws, st, node):
+        """sorted(xs, key=f[, reverse=True]) where f is a repo function under a contract that declares a key model:
+        the result is ordered by the abstract key  <model fn>(x)  (T4: sorted orders by key; f is a pure function,
+        so its proved postconditions hold for the key of every element -- the contract's `key_axioms`)."""
+        kf = kws['key']
+        if not (isinstance(kf, VFunc) and kf.kind == 'def' and kf.data['qual'] in self.contracts):
+            return False
+        c = self.contracts[kf.data['qual']]
+        km = c.extra.get('key_model')
+        if not km or R.et[0] != 'obj':
+            return False
+        fn, ksort = km
+        self.need_order(ksort)
+        keyf = z3.Function(fn, usort(R.et[1]), usort(ksort))
+        lt = z3.Function('lt_' + ksort, usort(ksort), usort(ksort), z3.BoolSort())
+        rev = False
+        if 'reverse' in kws:
+            rc = kws['reverse']
+            if not (isinstance(rc, VBool) and (z3.is_true(rc.z) or z3.is_false(rc.z))):
+                return False
+            rev = z3.is_true(rc.z)
+        i, j = z3.Int(fresh_name('i')), z3.Int(fresh_name('j'))
+        a, b = keyf(z3.Select(R.arr, i)), keyf(z3.Select(R.arr, j))
+        st.assume(z3.ForAll([i, j], z3.Implies(z3.And(0 <= i, i < j, j < R.n), z3.Not(lt(a, b)) if rev else z3.Not(lt(b, a)))),
+                  qf=False)
+        for text in c.extra.get('key_axioms', []):
+            z = self.ev_spec(text, st)
+            st.assume(z, qf=not self.has_quant(z))
+        self.note('rule', (node.lineno, ast.unparse(node)[:60],
+                           'sorted(key=%s): permutation ordered by the abstract key %s (contract of the key function)'
+                           % (kf.data['qual'], fn)))
+        return True
 
     def permutation_of(self, h, st):
         R = fresh_hlist(h.et, 'sorted', st)
@@ -791,6 +830,8 @@ class CallMixin:
                 return k(st, NONE)
             if name in ('items', 'values'):
                 return k(st, st.alloc(HList(None, None, z3.IntVal(0))))
+            if name == 'clear':
+                return k(st, NONE)
             if name == 'add':
                 kt = type_of_val(args[0], st)
                 st.heap[recv.rid] = h = empty_hdict(kt, None)
